@@ -3624,7 +3624,12 @@ impl<'a, R: FileManager> FrontendCtx<'a, R> {
             ]),
             RuntypeKind::Never => Some(vec![]),
             RuntypeKind::Ref(r) => match self.resolve_alias(r) {
-                Some(def) if matches!(def.kind, RuntypeKind::AnyOf(_) | RuntypeKind::Boolean) => {
+                Some(def)
+                    if matches!(
+                        def.kind,
+                        RuntypeKind::AnyOf(_) | RuntypeKind::Boolean | RuntypeKind::Never
+                    ) =>
+                {
                     // (type A = A | "x": the member that names the union itself adds nothing and
                     // would be distributed over without end)
                     self.members_to_distribute_over(&def).map(|members| {
